@@ -7,7 +7,7 @@ use crate::ops::*;
 use crate::shim::{self, Mode, Req, ReqKind};
 use crate::util::*;
 use lean_string::LeanString;
-use std::collections::{BTreeMap, HashMap, HashSet};
+use std::collections::BTreeMap;
 
 pub const NPROPS: usize = 21;
 
@@ -22,7 +22,7 @@ pub struct Viol {
 pub struct PropCov {
     /// number of times a monitor deciding this property was evaluated with its precondition met
     pub evals: u64,
-    pub sigs: HashSet<u64>,
+    pub sigs: SigSet,
     pub samples: Vec<String>,
 }
 
@@ -32,6 +32,7 @@ pub struct Cov {
     pub histories: u64,
     pub props: Vec<PropCov>,
     pub matrix: BTreeMap<String, u64>,
+    pub matrix_ix: Vec<(u64, String, u64)>,
     pub monitors: BTreeMap<&'static str, (u64, u64)>,
     pub counters: BTreeMap<&'static str, u64>,
     pub digest: u64,
@@ -171,7 +172,7 @@ pub struct HistoryCtx {
     pub seed: u64,
     pub index: u64,
     pub profile: Profile,
-    pub oplog: Vec<String>,
+    pub oplog: Vec<Op>,
 }
 
 impl Explorer {
@@ -221,7 +222,7 @@ impl Explorer {
             if hist_faults {
                 step.fault = None;
             }
-            ctx.oplog.push(step.op.show());
+            ctx.oplog.push(step.op.clone());
             let v = self.step(&mut pool, &step, hist_faults);
             if !v.is_empty() {
                 for mut x in v {
@@ -296,7 +297,8 @@ impl Explorer {
             op,
             Op::RetainPanic { .. } | Op::ExtendPanic { .. } | Op::CollectPanic { .. } | Op::ToLeanPanic { .. }
         );
-        let live_before = if self.track_heap { Some(shim::live_snapshot()) } else { None };
+        let index_op = matches!(op, Op::Remove { .. } | Op::Insert { .. } | Op::InsertStr { .. } | Op::Truncate { .. });
+        let live_before = if self.track_heap && index_op { Some(shim::live_snapshot()) } else { None };
 
         shim::clear_log();
         let failed0 = shim::failed_count();
@@ -501,7 +503,7 @@ impl Explorer {
         }
 
         // ---------------------------------------------------------------- state monitors
-        self.check_state(pool, &snaps, t, &mut out);
+        self.check_state(pool, &snaps, t, !log.is_empty(), &mut out);
 
         // bystanders (C02)
         let shared_pre = !matches!(share, Share::NoBuffer | Share::Unique);
@@ -584,14 +586,23 @@ impl Explorer {
         if log.iter().any(|q| q.kind != ReqKind::Dealloc) || !log.is_empty() {
             self.cov.count("steps_with_allocator_requests", 1);
         }
-        let cell = format!(
-            "{}|{}|{:?}|{}",
-            op.tag(),
-            if snaps[t].present { format!("{:?}", snaps[t].kind) } else { "empty".into() },
-            share,
-            real_out.class()
+        let cell_sig = mix(
+            tag_hash(op.tag()),
+            mix(snaps[t].kind as u64 + if snaps[t].present { 0 } else { 8 }, mix(share as u64, tag_hash(real_out.class()))),
         );
-        *self.cov.matrix.entry(cell).or_insert(0) += 1;
+        match self.cov.matrix_ix.binary_search_by_key(&cell_sig, |x| x.0) {
+            Ok(i) => self.cov.matrix_ix[i].2 += 1,
+            Err(i) => {
+                let name = format!(
+                    "{}|{}|{:?}|{}",
+                    op.tag(),
+                    if snaps[t].present { format!("{:?}", snaps[t].kind) } else { "empty".into() },
+                    share,
+                    real_out.class()
+                );
+                self.cov.matrix_ix.insert(i, (cell_sig, name, 1));
+            }
+        }
         if self.trace_digest {
             let mut d = mix(self.cov.digest, tag_hash(op.tag()));
             d = mix(d, tag_hash(real_out.class()));
@@ -615,8 +626,8 @@ impl Explorer {
     }
 
     /// Invariants of every live handle + reference counts + heap accounting.
-    fn check_state(&mut self, pool: &Pool, _snaps: &[Snap; NSLOTS], _t: usize, out: &mut Vec<Viol>) {
-        let mut groups: HashMap<usize, (usize, usize)> = HashMap::new(); // ptr -> (handles, cap)
+    fn check_state(&mut self, pool: &Pool, _snaps: &[Snap; NSLOTS], _t: usize, had_requests: bool, out: &mut Vec<Viol>) {
+        let mut groups: Vec<(usize, usize, usize)> = Vec::new(); // (ptr, handles, cap)
         for i in 0..NSLOTS {
             let (slot, model) = (&pool.slots[i], &pool.model[i]);
             match (slot.as_ref(), model.as_ref()) {
@@ -660,9 +671,16 @@ impl Explorer {
                     }
                     let k = kind_of(s);
                     if k == Kind::Heap {
-                        let e = groups.entry(s.as_ptr() as usize).or_insert((0, s.capacity()));
-                        e.0 += 1;
-                        if e.1 != s.capacity() {
+                        let p = s.as_ptr() as usize;
+                        let ix = match groups.iter().position(|g| g.0 == p) {
+                            Some(ix) => ix,
+                            None => {
+                                groups.push((p, 0, s.capacity()));
+                                groups.len() - 1
+                            }
+                        };
+                        groups[ix].1 += 1;
+                        if groups[ix].2 != s.capacity() {
                             Self::viol(out, 3, "refcount", format!("slot {i}: handles of one buffer report different capacities"));
                         }
                     } else if k == Kind::Inline && s.capacity() != 16 && std::mem::size_of::<usize>() == 8 {
@@ -677,7 +695,8 @@ impl Explorer {
         for i in 0..NSLOTS {
             if let Some(s) = pool.slots[i].as_ref() {
                 if let Some(rc) = s.verif_refcount() {
-                    let g = groups.get(&(s.as_ptr() as usize)).map(|x| x.0).unwrap_or(0);
+                    let p = s.as_ptr() as usize;
+                    let g = groups.iter().find(|g| g.0 == p).map(|x| x.1).unwrap_or(0);
                     if rc != g {
                         Self::viol(
                             out,
@@ -690,7 +709,18 @@ impl Explorer {
                 }
             }
         }
-        if self.track_heap {
+        if self.track_heap && !had_requests && self.cov.steps % 8 != 0 {
+            // cheap form: only the number of live blocks
+            let n = shim::live_count();
+            if n != groups.len() {
+                Self::viol(
+                    out,
+                    3,
+                    "heap-accounting",
+                    format!("{} live heap block(s) but {} distinct buffer(s) are referenced by live handles", n, groups.len()),
+                );
+            }
+        } else if self.track_heap {
             let live = shim::live_snapshot();
             if live.len() != groups.len() {
                 Self::viol(
@@ -701,7 +731,7 @@ impl Explorer {
                 );
             }
             let hdr = 2 * std::mem::size_of::<usize>();
-            for (ptr, (_, cap)) in &groups {
+            for (ptr, _, cap) in &groups {
                 match live.binary_search_by_key(&(ptr - hdr), |x| x.0) {
                     Ok(ix) => {
                         if live[ix].1 != hdr + cap {
